@@ -56,7 +56,7 @@ PROPS = {
         "level": "proof",
     },
     "C06": {
-        "vx": ["eval_arms"],
+        "vx": ["eval_arms", "evalloop"],
         "kl": ["baa_kernels"],
         "ax": True,
         "level": "proof",
